@@ -1,2 +1,22 @@
-(* props/C13.v — placeholder until the theorems of this property are added. *)
-From Prophy Require Import Bytes Schema Layout Wire PcModel.
+(* props/C13.v — prophyc always terminates with outputs or a designed diagnostic
+   (the part that is logic: the dependency sort of the middle end). *)
+From Coq Require Import List Bool Arith Lia Permutation.
+From Prophy Require Import PcSort PcSortFacts.
+Import ListNotations.
+
+(* For EVERY list of definitions — cyclic, self-referential, with duplicated names or dangling
+   references — the model of topological_sort terminates (never exhausts the fuel len+1 of its
+   inner loop, never indexes out of range) with a sorted list or the cycle diagnostic. *)
+Theorem C13_sort_total :
+  forall builtins l,
+    match topological_sort builtins l with
+    | Sorted _ | Cycle _ => True
+    | SortOutOfFuel | SortBad => False
+    end.
+Proof. intros builtins l. pose proof (topological_sort_total builtins l) as H. destruct (topological_sort builtins l); exact H. Qed.
+Print Assumptions C13_sort_total.
+
+Example C13_cycle_reported :
+  topological_sort [] [mk_node 0 1 [2]; mk_node 1 2 [1]] = Cycle 1 /\
+  topological_sort [] [mk_node 0 1 [1]] = Cycle 1.
+Proof. vm_compute. split; reflexivity. Qed.
